@@ -124,7 +124,7 @@ PROGRAMS = {
 }
 ASYNC_PLANS = {"amove", "aopen"}      # devices whose stop()/pause()/resume() are coroutines that really suspend
 MULTI_RUN_PLANS = {"multi", "multimon", "dupopen"}
-NOT_CONFORMANCE = {"amove", "aopen", "cfg", "cfginb", "cfgdrop", "multimon"}        # use commands RE.tla does not model (yet): monitored only
+NOT_CONFORMANCE = {"cfg", "cfginb", "cfgdrop", "multimon"}        # use commands RE.tla does not model (yet): monitored only
 
 BUILTINS = {
     "count": {"builtin": "count", "args": {"dets": ["det"], "num": 2}},
@@ -282,6 +282,7 @@ TRACE_CFG_CONSTS = {
     "RunKeys": {"", "k1", "k2"},
     "Streams": {"primary", "baseline", "interruptions", "mon1"},
     "Dets": {"det", "det2", "pdet", "apdet"}, "Motors": {"motor", "motor2", "amotor"}, "Mons": {"mon1"}, "Pausables": {"pdet", "apdet"}, "Flyers": set(),
+    "AsyncDevs": {"amotor", "apdet"},
     "ReadVal": "<- ReadValDef", "DataKeys": "<- DataKeysDef", "FutNames": {"f1", "f2"},
     "StreamOrder": "<- StreamOrderDef", "DevOrder": "<- DevOrderDef", "PlanLib": "<- PlanLibDef",
 }
@@ -592,7 +593,7 @@ def suspender_scenarios(tier):
                           [{"at": p, "kind": "sus_remove", "arg": "s1"}, {"at": p + 2, "kind": "sus_remove", "arg": "s1"},
                            {"at": p + 3, "kind": "sig_put", "arg": "sig1", "value": 1}]))
         # A'. paused while held by the tripped suspender; the suspender is removed / released while paused; then resume
-        for p in range(0, 3):
+        for p in range(0, 2):      # (only points 0 and 1 exist before the engine blocks on the tripped suspender)
             for dec in ("sus_remove:s1", "sig_put:sig1:0"):
                 sc = mk(plan, f"pre-tripped,pause@{p},{dec},resume", {"sig1": 0, "sig2": 0}, [["sig_put", "sig1", 1], ["sus_install", "s1", 0]],
                         [{"at": p, "kind": "pause"}])
@@ -742,7 +743,7 @@ def get_validation(tier, proj):
 # ---------------------------------------------------------------------------------------------------------------
 MC_BASE = {
     "RunKeys": {"", "k1", "k2"}, "Streams": {"primary", "interruptions", "mon1"},
-    "Dets": {"det", "det2", "pdet"}, "Motors": {"motor"}, "Mons": {"mon1"}, "Pausables": {"pdet"}, "Flyers": set(),
+    "Dets": {"det", "det2", "pdet"}, "Motors": {"motor"}, "Mons": {"mon1"}, "Pausables": {"pdet"}, "Flyers": set(), "AsyncDevs": set(),
     "ReadVal": "<- ReadValDef", "DataKeys": "<- DataKeysDef", "FutNames": {"f1", "f2"},
     "StreamOrder": "<- StreamOrderDef", "DevOrder": "<- DevOrderDef", "Prog": "<- ProgDef",
     "SuspPre": "<- SuspPreDef", "SuspPost": "<- SuspPostDef",
